@@ -262,6 +262,17 @@ static void sample(vf_rng *r, int range, a_real *re, a_real *im, int *region)
         y = (double)A_REAL_MAX * vf_uniform(r, 0.5, 1.0) * vf_sign(r);
         if (vf_chance(r, 1, 4)) { if (vf_chance(r, 1, 2)) { x *= 1e-3; } else { y *= 1e-3; } }
     }
+    if (range != RG_EXP && vf_chance(r, 1, 20))
+    {
+        /* both components around the square root of the largest (or of the smallest normal) value, nearly equal in size: the band
+           in which x*x and y*y are still (already) representable but their sum - or a guard derived from sqrt(MAX) instead of
+           sqrt(MAX/2) - is not (seeded change C10-I: a fast path 0.5*log(x*x + y*y) guarded by |x|, |y| < 1e154 returns inf for
+           components in (8.93e153, 1e154)); log-uniform sampling of the whole range meets this band about once in 1e8 points */
+        double const c = vf_chance(r, 1, 2) ? sqrt((double)A_REAL_MAX) * exp2(vf_uniform(r, -1.5, 0.6)) : sqrt((double)A_REAL_MIN) * exp2(vf_uniform(r, -0.6, 1.5));
+        x = c * vf_sign(r);
+        y = c * (vf_chance(r, 1, 2) ? 1 + vf_uniform(r, -1e-3, 1e-3) : vf_uniform(r, 0.85, 1.18)) * vf_sign(r);
+        if (vf_chance(r, 1, 2)) { double const t = x; x = y; y = t; }
+    }
     if (range == RG_EXP && vf_chance(r, 1, 10))
     {
         /* the overflow threshold of the exponential: one component within (-2, +0.4) of ln(MAX), where e^t, cosh t and sinh t are
